@@ -99,6 +99,19 @@ def p_const2(x: fp.Real, xs: list[fp.Real]):
     return (a, b, c)
 
 @fp.fpy
+def p_lit(x: fp.Real, xs: list[fp.Real]):
+    t = [0.0, 0.0]
+    u = p_mut(x, t)
+    w = [[0.5, 0.25], [1.0, 2.0]]
+    v = p_nest(x, w)
+    return (t[0], u, w[0][0], v)
+
+@fp.fpy
+def p_litret(x: fp.Real, xs: list[fp.Real]):
+    t = [0.1, 0.2]
+    return t
+
+@fp.fpy
 def p_capw(x: fp.Real, xs: list[fp.Real]):
     G[0] = G[0] + x
     return G[0]
@@ -348,7 +361,7 @@ def job_main(spec_path: str):
     tb, tbpath = load(TWIN_B, f'c18twb_{job["id"]}')
     traced = {ppath, tapath, tbpath}
     S = fp.strategies
-    funcs = {n: getattr(mod, n) for n in ('p_mut', 'p_ret', 'p_tup', 'p_trans', 'p_with', 'p_call', 'p_loop', 'p_own', 'p_nest', 'p_pair', 'p_const', 'p_const2')}
+    funcs = {n: getattr(mod, n) for n in ('p_mut', 'p_ret', 'p_tup', 'p_trans', 'p_with', 'p_call', 'p_loop', 'p_own', 'p_nest', 'p_pair', 'p_const', 'p_const2', 'p_lit', 'p_litret')}
     if job.get('captured'):
         funcs.update({n: getattr(mod, n) for n in CAPTURED})
     funcs['twin@a'] = ta.twin
